@@ -17,6 +17,8 @@ static int check(var t, const char* trace) {
   }
   int seen = 0; foreach (k in t) { seen++; if (seen > n + 2) break; }
   if (seen != n) { printf("REPRODUCED: after [%s] iteration yields %d keys, the map has %d\n", trace, seen, n); return 0; }
+  int back = 0; for (var k = iter_last(t); k isnt Terminal && back <= n + 2; k = iter_prev(t, k)) back++;
+  if (back != n) { printf("REPRODUCED: after [%s] backward iteration yields %d keys, the map has %d\n", trace, back, n); return 0; }
   return 1;
 }
 int main(int argc, char** argv) {
